@@ -240,6 +240,8 @@ class Purity:
                 from ..terms import MUTATING_METHODS
                 if c.fn[1] in MUTATING_METHODS:
                     return f"{q} calls mutating method .{c.fn[1]}"
+                if c.args and (c.args[0][0] == "logger" or any(t[0] == "logger" for t in subterms(c.args[0]))):
+                    return f"{q} emits a log record ({show(c.args[0])[:40]}.{c.fn[1]}): an observable effect that a cache hit skips"
         for root in [e.value for e in s.exits] + [a for e in s.exits for a, _ in e.cond]:
             for t in subterms(root):
                 if t[0] == "gvar":
@@ -386,3 +388,20 @@ def _immutable_seq_annotation(f) -> bool:
     r = getattr(f.node, "returns", None)
     s = ast.unparse(r) if r is not None else ""
     return "tuple" in s.lower() or "Tuple" in s or "frozenset" in s or "str" == s
+
+
+def module_object_is_mutated(ctx, qual: str) -> bool:
+    """Does any function of the package write (store / delete / mutating call) into the module-level object `qual`, directly or
+    through an attribute / element of it?  Conservative: a function the evaluator cannot summarise counts as a writer."""
+    for f in ctx.prog.all_functions():
+        try:
+            s = ctx.ev.summary(f)
+        except Exception:
+            return True
+        for e in s.effects:
+            r = root_of(e.target)
+            if r[0] == "global" and (len(r) < 2 or r[1] == qual or qual in repr(e.target)):
+                return True
+            if e.kind == "global_store" and qual in repr(e.target):
+                return True
+    return False
